@@ -533,6 +533,41 @@ theorem instMerkle_ok {v : Variant} {now : Nat} {self : Addr} {funds : List Coin
       (by simpa [ht'] using h3), rfl, (by simpa using h4), ?_⟩
     simp only [ht', Bool.false_eq_true, if_false]
 
+theorem instantiateWl_v {v : Variant} {now : Nat} {sender self : Addr} {funds : List Coin} {m : InstMsg} {w : Wl}
+    {msgs : List Msg} (h : instantiateWl v now sender self funds m = .ok (w, msgs)) : w.v = v ∧ w.self = self := by
+  unfold instantiateWl at h
+  split at h
+  · obtain ⟨_, _, _, _, _, _, ht⟩ := instListKind_ok h
+    by_cases hv : v.tiered = true
+    · simp only [hv, if_true] at ht; obtain ⟨_, _, _, _, rfl⟩ := ht; exact ⟨rfl, rfl⟩
+    · simp only [hv, if_false, Bool.false_eq_true] at ht; obtain ⟨_, _, _, _, rfl⟩ := ht; exact ⟨rfl, rfl⟩
+  · unfold instMerkle at h
+    by_cases ht : v.tiered = true
+    · simp only [ht, if_true, Bool.not_true, Bool.false_eq_true, Bool.false_and, if_false] at h
+      split at h; · cases h
+      split at h; · cases h
+      split at h; · cases h
+      split at h; · cases h
+      split at h; · cases h
+      split at h; · cases h
+      split at h; · cases h
+      simp only [Except.ok.injEq, Prod.mk.injEq] at h; obtain ⟨rfl, _⟩ := h; exact ⟨rfl, rfl⟩
+    · simp only [ht, if_false, Bool.false_eq_true] at h
+      split at h; · cases h
+      split at h; · cases h
+      split at h; · cases h
+      split at h; · cases h
+      split at h; · cases h
+      split at h; · cases h
+      split at h; · cases h
+      split at h; · cases h
+      simp only [Except.ok.injEq, Prod.mk.injEq] at h; obtain ⟨rfl, _⟩ := h; exact ⟨rfl, rfl⟩
+  · unfold instImmutable at h
+    split at h; · cases h
+    simp only [] at h
+    split at h; · cases h
+    simp only [Except.ok.injEq, Prod.mk.injEq] at h; obtain ⟨rfl, _⟩ := h; exact ⟨rfl, rfl⟩
+
 /-- **instantiate, single-stage kinds**: a successful composite instantiate IS a successful C12 instantiate with
 `envOk` = the composite's own verdict, and the new state projects onto the schedule state it returns -/
 theorem inst_sim12 {s s' : State} {v : Variant} (hf : Flat v) {sender self : Addr} {funds : List Coin} {m : InstMsg}
